@@ -57,6 +57,9 @@ thread_local! {
 static QUIET: std::sync::atomic::AtomicBool = std::sync::atomic::AtomicBool::new(true);
 
 pub fn install_panic_hook() {
+    if std::env::var("PV_LOUD").is_ok() {
+        set_quiet(false);
+    }
     std::panic::set_hook(Box::new(|info| {
         let msg = if let Some(s) = info.payload().downcast_ref::<&str>() {
             s.to_string()
@@ -415,6 +418,166 @@ impl Run {
         self.set_extra("build_variants_run", json!(ran));
     }
 
+    /// `(index, count)` when this process is one shard of a sharded run.
+    pub fn shard_spec() -> Option<(u64, u64)> {
+        let s = std::env::var("PV_SHARD").ok()?;
+        let (a, b) = s.split_once('/')?;
+        Some((a.parse().ok()?, b.parse().ok()?))
+    }
+
+    /// True if `case` belongs to this process (always true when not sharded).
+    pub fn in_shard(case: u64) -> bool {
+        match Self::shard_spec() {
+            Some((i, n)) => case % n == i,
+            None => true,
+        }
+    }
+
+    /// Runs the same property + tier in `n` worker processes (`PV_SHARD=i/n`, each with
+    /// `threads` rayon threads) and merges what they observed. Used by workloads that set
+    /// process-global prover knobs, which therefore handle one case at a time per process.
+    pub fn run_shards(&mut self, n: u64, threads: usize, watchdog_s: u64) {
+        let exe = match std::env::current_exe() {
+            Ok(e) => e,
+            Err(e) => {
+                self.inconclusive(&format!("cannot find own executable: {e}"));
+                return;
+            }
+        };
+        let tier = if self.quick() { "quick" } else { "thorough" };
+        let mut kids = vec![];
+        for i in 0..n {
+            let child = std::process::Command::new(&exe)
+                .args([self.prop, tier])
+                .env("PV_SUB", "1")
+                .env("PV_SHARD", format!("{i}/{n}"))
+                .env("PV_VARIANTS", "")
+                .env("RAYON_NUM_THREADS", threads.to_string())
+                .stdout(std::process::Stdio::piped())
+                .stderr(std::process::Stdio::piped())
+                .spawn();
+            match child {
+                Ok(c) => kids.push((i, c)),
+                Err(e) => self.inconclusive(&format!("shard {i}: cannot start: {e}")),
+            }
+        }
+        let deadline = Instant::now() + std::time::Duration::from_secs(watchdog_s);
+        // reader threads so that a chatty child cannot block on a full pipe
+        let mut handles = vec![];
+        for (i, mut c) in kids {
+            let mut so = c.stdout.take().unwrap();
+            let mut se = c.stderr.take().unwrap();
+            let h_out = std::thread::spawn(move || {
+                let mut s = String::new();
+                let _ = std::io::Read::read_to_string(&mut so, &mut s);
+                s
+            });
+            let h_err = std::thread::spawn(move || {
+                let mut s = String::new();
+                let _ = std::io::Read::read_to_string(&mut se, &mut s);
+                s
+            });
+            handles.push((i, c, h_out, h_err));
+        }
+        let mut shards_ok = 0u64;
+        for (i, mut c, h_out, h_err) in handles {
+            let status = loop {
+                match c.try_wait() {
+                    Ok(Some(st)) => break Some(st),
+                    Ok(None) => {
+                        if Instant::now() > deadline {
+                            let _ = c.kill();
+                            let _ = c.wait();
+                            break None;
+                        }
+                        std::thread::sleep(std::time::Duration::from_millis(50));
+                    }
+                    Err(_) => break None,
+                }
+            };
+            let out = h_out.join().unwrap_or_default();
+            let err = h_err.join().unwrap_or_default();
+            if status.is_none() {
+                self.inconclusive(&format!("shard {i}: watchdog ({watchdog_s}s) expired"));
+                continue;
+            }
+            let line = out.lines().find_map(|l| l.strip_prefix("SUBRESULT "));
+            let v: Value = match line.and_then(|l| serde_json::from_str(l).ok()) {
+                Some(v) => v,
+                None => {
+                    let tail: String = err.chars().rev().take(400).collect::<String>().chars().rev().collect();
+                    self.inconclusive(&format!("shard {i}: no result (status {:?}): {tail}", status.and_then(|s| s.code())));
+                    continue;
+                }
+            };
+            shards_ok += 1;
+            self.merge_sub(None, &v);
+        }
+        self.set_extra("shards", json!({"requested": n, "reported": shards_ok, "threads_each": threads}));
+    }
+
+    /// Merges a worker's SUBRESULT. With `prefix` (build variants) counters are namespaced and the
+    /// worker's cases are not counted as new distinct cases; without (shards) they are summed.
+    fn merge_sub(&mut self, prefix: Option<&str>, v: &Value) {
+        self.evaluations += v["evaluations"].as_u64().unwrap_or(0);
+        if prefix.is_none() {
+            self.distinct_bulk += v["distinct"].as_u64().unwrap_or(0);
+            for s in v["samples"].as_array().cloned().unwrap_or_default() {
+                self.sample(s);
+            }
+        }
+        let name = |k: &str| match prefix {
+            Some(p) => format!("{p}.{k}"),
+            None => k.to_string(),
+        };
+        if let Some(m) = v["counters"].as_object() {
+            for (k, n) in m {
+                self.count(&name(k), n.as_u64().unwrap_or(0));
+            }
+        }
+        if let Some(m) = v["extra"].as_object() {
+            for (k, x) in m {
+                if prefix.is_some() {
+                    self.set_extra(&name(k), x.clone());
+                } else if let (Some(old), Some(new)) = (self.extra.get(k).and_then(|o| o.as_object()).cloned(), x.as_object()) {
+                    // maps of counts are summed key-wise
+                    let mut merged = old;
+                    for (kk, vv) in new {
+                        let a = merged.get(kk).and_then(|z| z.as_u64()).unwrap_or(0);
+                        merged.insert(kk.clone(), json!(a + vv.as_u64().unwrap_or(0)));
+                    }
+                    self.extra.insert(k.clone(), Value::Object(merged));
+                } else if !self.extra.contains_key(k) {
+                    self.extra.insert(k.clone(), x.clone());
+                }
+            }
+        }
+        for w in v["inconclusive"].as_array().cloned().unwrap_or_default() {
+            let w = w.as_str().unwrap_or("").to_string();
+            // a single worker sees only a slice of the cases; its "too few events" is not the run's
+            if prefix.is_none() && w.starts_with("oracle observed too few events") {
+                continue;
+            }
+            self.inconclusive(&match prefix {
+                Some(p) => format!("variant {p}: {w}"),
+                None => w,
+            });
+        }
+        for viol in v["violations"].as_array().cloned().unwrap_or_default() {
+            let sig = viol["signature"].as_str().unwrap_or("").to_string();
+            let mut detail = viol["detail"].clone();
+            if let (Some(p), Some(o)) = (prefix, detail.as_object_mut()) {
+                o.insert("build_variant".into(), json!(p));
+            }
+            self.violation(&sig, viol["case"].as_u64().unwrap_or(0), detail);
+        }
+        for k in v["known_hits"].as_array().cloned().unwrap_or_default() {
+            let sig = k["signature"].as_str().unwrap_or("").to_string();
+            let e = self.known_hits.entry(sig).or_insert((k["what"].as_str().unwrap_or("").to_string(), 0));
+            e.1 += k["times"].as_u64().unwrap_or(1);
+        }
+    }
+
     pub fn violation_count(&self) -> usize {
         self.violations.len()
     }
@@ -426,6 +589,7 @@ impl Run {
             let v = json!({
                 "evaluations": self.evaluations,
                 "distinct": self.distinct_count(),
+                "samples": self.samples,
                 "counters": self.counters,
                 "extra": Value::Object(self.extra.clone()),
                 "inconclusive": self.inconclusive,
